@@ -61,7 +61,7 @@ def rule_width(ctx):
     # every `+=` on a field of the callback is 64-bit
     for b in roots:
         for bb, idx, place, rv, st in b.stores():
-            if rv is None or rv['k'] != 'use':
+            if rv is None or rv['k'] not in ('use', 'binop'):
                 continue
             e = b.rvalue_expr(rv)
             if e[0] == 'bin' and e[1] in ('Add', 'AddUnchecked'):
